@@ -55,6 +55,8 @@ def main(argv=None):
         plan = [list(range(b * K, (b + 1) * K)) for b in range(a.worker, a.buckets, a.nworkers)]
 
     n_runs = 0
+    n_viol = 0
+    seen_clauses, shrunk_clauses = set(), set()
     samples = []
     sample_faulted = None
     buckets_done = 0
@@ -100,7 +102,14 @@ def main(argv=None):
             if V:
                 clause = V[0]["clause"]
                 mini, evals = (world, 0)
-                if not a.no_shrink:
+                n_viol += 1
+                seen_clauses.add(clause)
+                # shrink and write replay files for the first few violations (and the first of each
+                # new clause) only: a badly broken tree fails thousands of runs
+                full = n_viol <= 3 or clause not in shrunk_clauses
+                if full:
+                    shrunk_clauses.add(clause)
+                if not a.no_shrink and full:
                     try:
                         mini, evals = shrink(spec, world, clause)
                     except Exception:  # noqa: BLE001
@@ -126,7 +135,7 @@ def main(argv=None):
                     replay["trace"] = spec.sample_view(mini, res_m, {}, "replay")
                 except Exception:  # noqa: BLE001
                     replay["digest"] = None
-                if a.replay_dir:
+                if a.replay_dir and full:
                     os.makedirs(a.replay_dir, exist_ok=True)
                     path = os.path.join(a.replay_dir, f"{a.prop}-{a.seed}-{idx}.json")
                     with open(path, "w") as f:
